@@ -69,6 +69,8 @@ pub const FLAVOURS: [&str; 16] = [
 pub enum Pick {
     /// index of the chosen member; `by_ref` flavours also assert the reference points into the source
     Member(usize),
+    /// two consecutive samples from one distribution value
+    Two(usize, usize),
     NotAMember,
     ConstructionError,
     WrongNumChoices(usize),
@@ -94,12 +96,24 @@ fn judge_ref(src: &[u32], r: &u32) -> Pick {
     }
 }
 
+thread_local! {
+    /// sample every distribution value twice (joint law of consecutive samples)
+    static TWICE: Cell<bool> = const { Cell::new(false) };
+}
+
 macro_rules! sample_val {
     ($d:expr, $src:expr, $rng:expr, $n:expr) => {{
         match $d {
             Ok(d) => {
                 if ChoicesDistribution::num_choices(&d).get() != $n {
                     Pick::WrongNumChoices(ChoicesDistribution::num_choices(&d).get())
+                } else if TWICE.with(|t| t.get()) {
+                    let v: u32 = d.sample($rng);
+                    let w: u32 = d.sample($rng);
+                    match (judge_val($src, v), judge_val($src, w)) {
+                        (Pick::Member(a), Pick::Member(b)) => Pick::Two(a, b),
+                        (Pick::Member(_), other) | (other, _) => other,
+                    }
                 } else {
                     let v: u32 = d.sample($rng);
                     judge_val($src, v)
@@ -115,6 +129,13 @@ macro_rules! sample_ref {
             Ok(d) => {
                 if ChoicesDistribution::num_choices(&d).get() != $n {
                     Pick::WrongNumChoices(ChoicesDistribution::num_choices(&d).get())
+                } else if TWICE.with(|t| t.get()) {
+                    let v: &u32 = d.sample($rng);
+                    let w: &u32 = d.sample($rng);
+                    match (judge_ref($src, v), judge_ref($src, w)) {
+                        (Pick::Member(a), Pick::Member(b)) => Pick::Two(a, b),
+                        (Pick::Member(_), other) | (other, _) => other,
+                    }
                 } else {
                     let v: &u32 = d.sample($rng);
                     judge_ref($src, v)
@@ -220,6 +241,22 @@ fn choice_case(flavour: usize, n: usize) -> (u64, u64, Option<(String, String)>,
     }
     if st.capped || !st.total_weight_is_one {
         return (st.leaves, st.choice_points, Some(("machinery/cap".into(), format!("{label}: capped"))), 0);
+    }
+    // two consecutive samples from one distribution value are independent: the joint law is the product
+    if (1..=4).contains(&n) && flavour != 15 && flavour != 14 {
+        let mut law2: Law<Pick> = Law::new();
+        TWICE.with(|t| t.set(true));
+        let st2 = explore(|env| pick_once(flavour, n, env, Alphabet::Grid(12)), |_, w, p| law2.add(p, w), 1_000_000);
+        TWICE.with(|t| t.set(false));
+        let mut want2: Law<Pick> = Law::new();
+        for i in 0..n {
+            for j in 0..n {
+                want2.add(Pick::Two(i, j), Ratio::new(1, (n * n) as u128));
+            }
+        }
+        if !st2.capped && st2.total_weight_is_one && st2.diverged.is_none() && law2 != want2 {
+            return (st.leaves + st2.leaves, st.choice_points, Some((format!("choice/{flavour}/law-of-two"), format!("{label}: two consecutive samples have the joint law {} but independent uniform choices give {}", law2.render(), want2.render()))), law2.mass.len());
+        }
     }
     let mut want: Law<Pick> = Law::new();
     if n == 0 {
@@ -433,7 +470,7 @@ pub fn run(run: &mut Run) {
     }
     run.traces_validated = run.evaluations;
     run.distinct_nontrivial = nontrivial;
-    run.rule = "every conversion flavour of conversion.rs (Vec, &Vec, array, &array, slice; into/to; owning OneOfCloning, borrowing Choose, cloning ChooseCloning), the direct constructors and uniform_distribution_of! x source sizes 0..n with pairwise distinct members x all 60 grid words (vector/slice flavours also sizes around powers of two up to 257 (1000) on the grid of their own size; membership additionally on every stream over the extreme words 0 and all-ones): empty source => construction error; otherwise num_choices == len and each member exactly 1/len (borrowing flavours: pointer into the source); collection generators for Vec, Bitstring, Plushy and scored populations: exactly `size` elements in generation order (sizes 0..n and around powers of two up to 257 (4096); nested collections 0..3 x 0..3). non-trivial = scenarios with more than one outcome".into();
+    run.rule = "every conversion flavour of conversion.rs (Vec, &Vec, array, &array, slice; into/to; owning OneOfCloning, borrowing Choose, cloning ChooseCloning), the direct constructors and uniform_distribution_of! x source sizes 0..n with pairwise distinct members x all 60 grid words (vector/slice flavours also sizes around powers of two up to 257 (1000) on the grid of their own size; membership additionally on every stream over the extreme words 0 and all-ones): empty source => construction error; otherwise num_choices == len and each member exactly 1/len (borrowing flavours: pointer into the source), two consecutive samples from one distribution value have the product law (sizes 1..4); collection generators for Vec, Bitstring, Plushy and scored populations: exactly `size` elements in generation order (sizes 0..n and around powers of two up to 257 (4096); nested collections 0..3 x 0..3). non-trivial = scenarios with more than one outcome".into();
     run.bound("max_source_size", json!(max_n));
     run.bound("alphabet", json!("Grid(60)"));
     run.assumptions = vec!["rand's Uniform / slice::Choose map grid cells to members as calibrated".into()];
